@@ -8,12 +8,20 @@ Open Scope list_scope.
 (* ---------------------------------------------------------------------------------------- *)
 (* facts about the code as it is now (they break when cbo.go changes shape)                  *)
 (* ---------------------------------------------------------------------------------------- *)
-Lemma code_flags : cbo_imports_unaliased = true /\ cbo_excludes_self = true /\ members_reached = true.
+Lemma code_flags : cbo_imports_unaliased = true /\ cbo_excludes_self = true /\ members_reached = true /\ cbo_walk_never_pruned = true.
 Proof. repeat split; reflexivity. Qed.
 
 (* every position that can hold an instantiation is visited by walkNode *)
 Lemma expr_positions_reached : forall p, is_store_target p = false -> reached cbo_walk_fields 0 p [] = true.
 Proof. intros p; destruct p; intros H; try discriminate H; vm_compute; reflexivity. Qed.
+
+(* ... and so is every mention nested, to any depth, in the argument list (positional, keyword,
+   *, **, list literal) of a call written in such a position *)
+Lemma cbo_slots_walked : forall s, path_walked cbo_walk_fields (slot_path s) = true.
+Proof. intros s; destruct s; vm_compute; reflexivity. Qed.
+Lemma expr_positions_reached_at : forall p slots, is_store_target p = false ->
+  reached_at cbo_walk_fields 0 p slots [] = true.
+Proof. intros. apply reached_at_slots; [exact cbo_slots_walked | apply expr_positions_reached; assumption]. Qed.
 
 Lemma collect_imports_bound : forall f, collect_imports f = bound_names f.
 Proof.
@@ -164,8 +172,8 @@ Lemma mention_dep_In : forall f m z,
   (In z (mention_dep default_options (collect_imports f) (f_classes f) m) <->
    In z (filter (coupled_callee f) (instantiated m)) /\ is_builtin z = false).
 Proof.
-  intros f [k p] z; unfold mention_dep, instantiated; simpl. destruct k as [r | |]; simpl; try tauto.
-  intros [[Hp Hn] Hs]. rewrite expr_positions_reached by assumption.
+  intros f [k p sl] z; unfold mention_dep, instantiated; simpl. destruct k as [r | |]; simpl; try tauto.
+  intros [[Hp Hn] Hs]. rewrite expr_positions_reached_at by assumption.
   unfold call_dep, coupled_callee. rewrite Hp, collect_imports_bound, should_include_default, plain_eq by assumption.
   unfold default_options; simpl. rewrite orb_false_r.
   unfold is_builtin.
@@ -344,8 +352,8 @@ Proof.
   rewrite !in_app_iff, IH by tauto.
   assert (mention_dep o (collect_imports (File imps classes)) (n :: classes) m =
           mention_dep o (collect_imports (File imps classes)) classes m) as ->; [| tauto].
-  destruct m as [k p]; unfold mention_dep, instantiated in *; simpl in *. destruct k as [r0 | |]; auto.
-  destruct (reached cbo_walk_fields 0 p []); auto.
+  destruct m as [k p sl]; unfold mention_dep, instantiated in *; simpl in *. destruct k as [r0 | |]; auto.
+  match goal with |- context [if ?b then _ else _] => destruct b; auto end.
   unfold call_dep. destruct (is_plain r0); auto. simpl.
   assert (snd r0 =? n = false) as ->; [| reflexivity].
   apply N.eqb_neq. intros E. apply Hn. left. simpl. auto.
@@ -379,13 +387,13 @@ Proof.
   unfold raw_deps, analyze_inheritance; simpl. rewrite H. simpl. intuition.
 Qed.
 (* ... as an instantiation in any visited position of a new method *)
-Corollary cbo_additive_instantiation : forall o f n bs ms r p md,
-  reached cbo_walk_fields 0 p [] = true -> call_dep o (collect_imports f) (f_classes f) r = [r] ->
-  md_body md = [Mention (KInst r) p] -> md_params md = [] -> md_ret md = None ->
+Corollary cbo_additive_instantiation : forall o f n bs ms r p sl md,
+  reached_at cbo_walk_fields 0 p sl [] = true -> call_dep o (collect_imports f) (f_classes f) r = [r] ->
+  md_body md = [MentionAt (KInst r) p sl] -> md_params md = [] -> md_ret md = None ->
   not_self (Class n bs ms) r = true -> ~ In r (cbo_deps o f (Class n bs ms)) ->
   r_count (cbo_model o f (Class n bs (MMethod md :: ms))) = (r_count (cbo_model o f (Class n bs ms)) + 1)%Z.
 Proof.
-  intros o f n bs ms r p md Hr Hc Hb Hp Hret Hs Hnew. eapply cbo_additive; eauto. intros z.
+  intros o f n bs ms r p sl md Hr Hc Hb Hp Hret Hs Hnew. eapply cbo_additive; eauto. intros z.
   unfold raw_deps, analyze_type_hints, analyze_instantiation; simpl.
   rewrite Hb, Hp, Hret; simpl. unfold mention_dep; simpl. rewrite Hr, Hc.
   destruct members_reached; simpl; rewrite !in_app_iff; simpl; intuition (subst; auto).
@@ -402,7 +410,7 @@ Fixpoint ren_ty (k k' : name) (t : ty) : ty :=
   | TNone => TNone | TStr => TStr
   end.
 Definition ren_mention (k k' : name) (m : mention) : mention :=
-  match m_kind m with KInst r => Mention (KInst (ren k k' r)) (m_pos m) | _ => m end.
+  match m_kind m with KInst r => MentionAt (KInst (ren k k' r)) (m_pos m) (m_slots m) | _ => m end.
 Definition ren_member (k k' : name) (m : member) : member :=
   match m with
   | MAttr a t => MAttr a (ren_ty k k' t)
